@@ -8,7 +8,7 @@ COQ_FILES = ["Props/C06.v", "Props/C04_reason.v", "Obl/DispatchOk.v", "Obl/Enums
 
 
 def correspondence(ctx):
-    n = 400 if ctx.tier == "thorough" else 50
+    n = 400 if ctx.tier == "thorough" else 52
     CC.run_sessions(ctx, "C06", n, lambda rng: dict(n_events=rng.choice([30,60]), burst=0.7, fault=0.08, bad=0.05), lambda rng: dict(required=rng.choice([2,2,3]), max_steps=rng.choice([1,2,3])))
 
 
